@@ -515,11 +515,75 @@ def _part_d(ctx):
 
 
 
+# ------------------------------------------------------------------ part E: overlays attached by return_command aliases
+
+
+def _part_e(ctx):
+    """A return_command alias may hand back {"cmd": ..., "env": {...}}: the overlay belongs to that ONE
+    command.  Every sequence of <= 3 invocations over the lines built from three such aliases (one returns
+    a dict object it keeps and reuses, one a fresh dict, one a plain list), chained to depth 2, with a real
+    child that reports what it received: each child sees exactly the overlays of the aliases on its own
+    line, whatever ran before, and the dict the alias keeps is never written to."""
+    import itertools
+    import json as _json
+    import sys as _sys
+
+    from xonsh.built_ins import subproc_captured_stdout
+
+    d = common.scratch_dir("c10e")
+    xsh = load_session(data_dir=d, path=["/usr/bin", "/bin"], env={"XONSH_SUBPROC_RAISE_ERROR": False, "XONSH_INTERACTIVE": False})
+    keys = ("XE_A", "XE_B", "XE_C")
+    printer = [_sys.executable, "-c", "import os,json;print(json.dumps({k:os.environ.get(k) for k in %r}))" % (keys,)]
+    kept = {"XE_A": "kept"}
+
+    @xsh.aliases.return_command
+    def _mk(args):
+        return {"cmd": list(args), "env": kept}
+
+    @xsh.aliases.return_command
+    def _dbg(args):
+        return {"cmd": list(args), "env": {"XE_B": "1", "XE_C": "all"}}
+
+    @xsh.aliases.return_command
+    def _raw(args):
+        return list(args)
+
+    xsh.aliases["mk"], xsh.aliases["dbg"], xsh.aliases["raw"] = _mk, _dbg, _raw
+    overlay = {"mk": {"XE_A": "kept"}, "dbg": {"XE_B": "1", "XE_C": "all"}, "raw": {}}
+    lines = [()] + [(a,) for a in overlay] + [(a, b) for a in overlay for b in overlay if a != b]
+    n = 0
+    for seq in itertools.product(range(len(lines)), repeat=ctx.pick(2, 3)):
+        if not ctx.thorough and seq[0] == seq[1]:
+            continue
+        for i, li in enumerate(seq):
+            line = lines[li]
+            got = _json.loads(subproc_captured_stdout(list(line) + printer))
+            n += 1
+            want = {k: None for k in keys}
+            for a in line:
+                want.update(overlay[a])
+            if got != want or kept != {"XE_A": "kept"}:
+                ctx.violation(
+                    key="alias-overlay-reaches-exactly-its-own-command:" + ("alias-kept-dict-written-to" if kept != {"XE_A": "kept"} else "child-sees-overlay-of-an-earlier-command" if any(got.get(k) and not want.get(k) for k in keys) else "overlay-missing"),
+                    clause="the mapping handed to a child reflects the values at launch time (an alias overlay belongs to the one command it was returned with)",
+                    case={"part": "E", "lines": [" ".join(lines[j]) + " <printer>" for j in seq[: i + 1]]},
+                    observed={"child": got, "dict_kept_by_alias": dict(kept)},
+                    expected={"child": want, "dict_kept_by_alias": {"XE_A": "kept"}},
+                )
+                kept.clear()
+                kept.update({"XE_A": "kept"})
+                break
+    return n
+
+
+
 def run(ctx):
     evals, nontrivial, skipped, nvars = _part_a(ctx)
     ctx.log(f"part A: {nvars} registered variables/types, {evals} (variable, value) round trips, {skipped} skipped (no validator/converter/detyper)")
     n_c = _part_c(ctx)
     n_d = _part_d(ctx)
+    n_e = _part_e(ctx)
+    ctx.log(f"part E (return_command overlays): {n_e} real children")
     ctx.log(f"part D ($LS_COLORS edited in place): {n_d} launches")
     ctx.log(f"part C: {n_c} pipelines with per-command prefixes through real children")
     depth = ctx.pick(5, 7)
